@@ -54,6 +54,10 @@ SOL = {
     "base": "pH 8.3\n Na 2 charge\n C(4) 2\n Cl 0.2",
     "I0": "pH 7\n Ca 0.5\n Cl 1",
     "I1": "pH 7\n K 1.5\n N(5) 0.5\n Cl 2\n Na 1",
+    # pattern "band": column and boundary solutions hold the same elements at different levels, so that a non-convex mixing step
+    # shows up as a value outside the band instead of a negative concentration (= a failed run, which is not judged)
+    "Ba": "pH 7\n Na 1\n K 0.5\n Cl 1.5",
+    "Bb": "pH 7\n Na 2\n K 1\n Cl 3",
 }
 PATTERNS = ["uniform", "step", "alt", "acidbase"]
 DIRS = {"forward": 1, "back": -1, "diffusion_only": 0}
@@ -68,6 +72,8 @@ def cell_solution(pat, i, n):
         return "A2" if i % 2 else "B2"
     if pat == "acidbase":
         return "acid" if i % 2 else "base"
+    if pat == "band":
+        return "Ba"
     raise ValueError(pat)
 
 
@@ -107,6 +113,8 @@ def build_input(c):
     d = DIRS[c["dir"]]
     inflow = c.get("inflow", 0)
     first, last = ("I%d" % inflow, "I%d" % (1 - inflow)) if d >= 0 else ("I%d" % (1 - inflow), "I%d" % inflow)
+    if c["pat"] == "band":
+        first = last = "Bb"
     t.append("SOLUTION 0\n %s" % SOL[first])
     for i in range(1, n + 1):
         t.append("SOLUTION %d\n %s" % (i, SOL[cell_solution(c["pat"], i, n)]))
@@ -136,6 +144,8 @@ def build_input(c):
               "-lengths " + " ".join("%r" % x for x in lengths(c["len"], n)),
               "-dispersivities " + " ".join("%r" % (c["disp"] * x) for x in lengths(c["len"], n)),
               "-diffusion_coefficient %r" % c["D"], "-punch_cells 0-%d" % lastcell, "-punch_frequency 1", "-print_frequency 1000"]
+        if c.get("cd"):
+            tr.append("-correct_disp true")
         if stag:
             tr.append("-stagnant 1" if stag[0] == "mix" else "-stagnant 1 %r %r %r" % stag[:3])
         mode = c.get("mode", "plain")
@@ -342,7 +352,12 @@ def families(tier):
         # A1: advection + dispersion + diffusion, one diffusion coefficient: exact shift (disp = D = 0) + convexity (all)
         fam.append(("advective TRANSPORT, single D", P(
             "TR", n=[1, 2, 3, 5], len=["equal", "growing"], disp=[0.0, 0.1, 2.0], D_dt=DDT, shifts=[3], dir=["forward", "back"], bc=BC3,
-            stag=[0, 1], pat=["uniform", "alt"], inflow=[0], mode=["plain"])))
+            stag=[0, 1], pat=["uniform", "alt", "band"], inflow=[0], mode=["plain"])))
+        # A1c: the same with -correct_disp (numerical-dispersion correction for flux boundaries) on a finer dispersivity grid
+        fam.append(("advective TRANSPORT, single D, -correct_disp", P(
+            "TR", n=[2, 3, 5], len=["equal"], disp=[0.1, 0.3, 0.6, 1.2, 2.0], D_dt=[(0.0, 1e3), (1e-9, 1e3)], shifts=[3], dir=["forward", "back"],
+            bc=[["flux", "flux"], ["flux", "constant"], ["constant", "flux"], ["flux", "closed"]], stag=[0], pat=["band", "uniform", "alt"], inflow=[0, 1],
+            mode=["plain"], cd=[True])))
         # A2: ADVECTION keyword (no solid: exact shift; solids: balance)
         fam.append(("ADVECTION keyword", P(
             "ADV", n=N, shifts=[1, 2, 3], dt=[1e3], dir=["forward"], pat=PATTERNS, inflow=[0, 1], solid=["none", "exchange", "calcite"])))
@@ -378,6 +393,9 @@ def families(tier):
             "TR", n=N + NL, len=["equal", "growing"], D_dt=[(0.0, 1e3)], shifts=[3, 10], dir=["forward", "back"], bc=BC3,
             stag=[0], pat=PATTERNS, inflow=[0, 1], disp=[0.0], mode=["plain"], solid=["exchange", "calcite"])))
     if not q:
+        fam.append(("advective TRANSPORT, single D, -correct_disp", P(
+            "TR", n=[2, 3, 5, 8], len=["equal", "growing"], disp=[0.05, 0.1, 0.3, 0.6, 0.9, 1.2, 1.7, 2.0], D_dt=[(0.0, 1e3), (1e-9, 1e3), (1e-9, 1e6)], shifts=[3, 10],
+            dir=["forward", "back"], bc=BC3, stag=[0, 1], pat=PATTERNS + ["band"], inflow=[0, 1], mode=["plain"], cd=[True])))
         # the two big families last: a deadline can then only cut into them
         fam.append(("advective TRANSPORT, single D, long columns", P(
             "TR", n=NL, len=["equal", "growing"], disp=[0.0, 0.1, 2.0], D_dt=[(0.0, 1e3), (1e-9, 1e3), (1e-9, 1e6)], shifts=[10], dir=["forward", "back"], bc=BC3,
